@@ -542,6 +542,11 @@ func (c *conn) Close() error {""")]),
 					continue
 				}
 				*v = append(*v, element)""")]),
+ ("c18-read-ignores-offset", "C18", [("ramfs/dirent.go", "	copy(p[:m], ref.Data[offset:offset+m])", "	copy(p[:m], ref.Data[:m])")]),
+ ("c18-write-appends-whole-p", "C18", [("ramfs/dirent.go", "		ref.Data = append(ref.Data, p[n:]...)", "		ref.Data = append(ref.Data, p...)")]),
+ ("c18-write-returns-tail-count", "C18", [("ramfs/dirent.go", """	ref.Info.Length = uint64(len(ref.Data))
+	return int(m), nil""", """	ref.Info.Length = uint64(len(ref.Data))
+	return int(n), nil""")]),
  ("c05-no-notag-skip", "C05", [("transport.go", """		hint++
 		if hint == NOTAG {
 			hint = 0
